@@ -97,3 +97,18 @@ package executors
 //@   ensures [quit-only-idle-and-empty] result ==> pe.inflight == 0 && !pe.guarded && ret(timex.Now) - last > pe.interval * 10
 //@   ensures [stay] !result ==> pe.guarded == old(pe.guarded)
 //@   ensures [decided-under-lock] result ==> calls("lock") == 1 && calls("unlock") == 1
+
+// The flusher goroutine. A batch handed over by Add is first registered as an execution in progress
+// (enterExecution: the barrier that Flush/Wait wait on) and only then confirmed to the adder, so that once Add
+// returns a Wait cannot slip through before the batch has run; the batch is then executed exactly once. A tick
+// does none of this. The goroutine flushes once more when it exits.
+//@ func (*PeriodicalExecutor).backgroundFlush$1
+//@   prop C16
+//@   opaque Flush, enterExecution, executeTasks, shallQuit, newTicker, Stop, Chan
+//@   requires pe != nil
+//@   let commandedNow = calls(on("recv", pe.commander)) == 1
+//@   loop 1 iteration-ensures [registered-before-confirmed] commandedNow ==> calls(pe.enterExecution) == 1 && calls(on("send", pe.confirmChan)) == 1 && before(enterExecution, on("send", pe.confirmChan)) && before(on("send", pe.confirmChan), executeTasks)
+//@   loop 1 iteration-ensures [batch-executed-once] commandedNow ==> calls(pe.executeTasks, ret(on("recv", pe.commander))) == 1 && calls(executeTasks) == 1 && pe.inflight == at_head(pe.inflight) - 1
+//@   loop 1 iteration-ensures [tick-executes-nothing-itself] !commandedNow ==> calls(enterExecution) == 0 && calls("send") == 0 && calls(executeTasks) == 0 && pe.inflight == at_head(pe.inflight)
+//@   ensures [quits-only-when-idle] calls(shallQuit) == 1 && ret(shallQuit) && calls(executeTasks) == 0
+//@   ensures [final-flush-and-ticker-stopped] calls(pe.Flush) == 2 && calls(Stop) == 1
